@@ -566,12 +566,9 @@ class Resource(object):
                     self._assign_uuid(obj)
                     uri_fragment = obj._internal_id
                 else:
-                    id_attribute = self.get_id_attribute(eclass)
-                    if id_attribute:
-                        id_value = obj.eGet(id_attribute)
-                        # id attributes shall not be used if the value is unset
-                        if id_value:
-                            uri_fragment = id_value
+                    id_fragment = self._id_fragment(obj)
+                    if id_fragment:
+                        uri_fragment = id_fragment
             else:
                 uri = ''
                 root = obj.eRoot()
@@ -595,19 +592,29 @@ class Resource(object):
         if self.use_uuid:
             self._assign_uuid(obj)
             return (obj._internal_id, False)
-        id_attribute = self.get_id_attribute(obj.eClass)
-        if id_attribute:
-            etype = id_attribute._eType
-            id_att_value = obj.eGet(id_attribute)
-            if id_att_value is not None:
-                # malformed ids are not used as references: an id must
-                # not read as nothing, as a list (whitespace), as a path
-                # (leading '/') or as an external reference ('#')
-                frag = etype.to_string(id_att_value)
-                if frag and frag[0] != '/' and '#' not in frag \
-                        and not any(c.isspace() for c in frag):
-                    return (frag, False)
+        id_fragment = self._id_fragment(obj)
+        if id_fragment:
+            return (id_fragment, False)
         return (obj.eURIFragment(), False)
+
+    def _id_fragment(self, obj):
+        # the text of the id attribute of obj when it can serve as a
+        # reference to it: only an id that is SET (an unset EInt id reads 0
+        # on every object), in its text form
+        id_attribute = self.get_id_attribute(obj.eClass)
+        if not id_attribute or not obj.eIsSet(id_attribute):
+            return None
+        id_att_value = obj.eGet(id_attribute)
+        if id_att_value is None:
+            return None
+        # malformed ids are not used as references: an id must
+        # not read as nothing, as a list (whitespace), as a path
+        # (leading '/') or as an external reference ('#')
+        frag = id_attribute._eType.to_string(id_att_value)
+        if frag and frag[0] != '/' and '#' not in frag \
+                and not any(c.isspace() for c in frag):
+            return frag
+        return None
 
     @staticmethod
     def _assign_uuid(obj):
